@@ -165,3 +165,50 @@ Definition check_unbind_l (al : alg) (a v : scaled zvec) (sd : side) (t : tol)
 (* property-level: the observed vector is (close to) a given integer vector *)
 Definition check_is (a : zvec) (t : tol) (o : obs (seq dyad)) : bool :=
   match o with OVal x _ => close_vec x a t | _ => false end.
+
+(* ---- sign and abs (C17) --------------------------------------------------- *)
+From NSpa Require Import Model.Sign.
+
+Definition bools4 (p n z i : bool) (o : seq bool) : bool :=
+  match o with
+  | [:: p'; n'; z'; i'] => (p == p') && (n == n') && (z == z') && (i == i')
+  | _ => false
+  end.
+
+(* observed: [is_positive; is_negative; is_zero; is_indefinite] or an exception *)
+Definition check_hrr_sign (v : zvec) (o : obs (seq bool)) : bool :=
+  match hrr_sign_of v, o with
+  | Ok s, OVal x _ =>
+      bools4 (sign_is_positive s) (sign_is_negative s) (sign_is_zero s) (sign_is_indefinite s) x
+  | Err e, OExn e' => exn_eqb e e'
+  | _, _ => false
+  end.
+
+Definition check_hrr_sign_vector (v : zvec) (t : tol) (o : obs (seq dyad)) : bool :=
+  cmp_res (cmp_vec t)
+    (rmap (fun s => nowarn (hrr_sign_to_vector _ s (size v) : zvec)) (hrr_sign_of v)) o.
+
+Definition check_hrr_abs (v : zvec) (t : tol) (o : obs (seq dyad)) : bool :=
+  cmp_res (cmp_vec t) (rmap (@nowarn _) (hrr_abs v)) o.
+
+Definition check_sq_sign (v : zvec) (L : zmat) (D : zvec) (o : obs (seq bool)) : bool :=
+  match sq_sign v L D, o with
+  | Ok (Some g), OVal x _ =>
+      bools4 (g_is_positive g) (g_is_negative g) (g_is_zero g) (g_is_indefinite g) x
+  | Err e, OExn e' => exn_eqb e e'
+  | _, _ => false
+  end.
+
+Definition check_sq_abs (al : alg) (v : zvec) (L : zmat) (D : zvec) (t : tol)
+    (o : obs (seq dyad)) : bool :=
+  match sq_sign v L D with
+  | Ok (Some g) =>
+      cmp_res (cmp_svec t)
+        (rmap (@nowarn _) (if al is AVtb then vtb_abs v g else tvtb_abs v g)) o
+  | Ok None => false
+  | Err e => if o is OExn e' then exn_eqb e e' else false
+  end.
+
+(* HRR integer binding powers (C12) *)
+Definition check_hrr_power (v : zvec) (neg : bool) (n : nat) (t : tol) (o : obs (seq dyad)) : bool :=
+  cmp_res (cmp_vec t) (Ok (nowarn (hrr_power v neg n))) o.
